@@ -298,8 +298,8 @@ RULESETS = [
     ("underscore-run-in-template", [], [("(m _ ...)", "(got _ and more)")]),
 ]
 USES = ["(1 2 lit)", "(1 2 lit 4)", "(1 lit)", "((1 2) lit)", "(#(1))", "(#())", "((1))", "()", "(1)", "(1 2)", "(1 2 3)", "((1 2))", "((1 2) (3 4))", "((1 2) 3)", "(lit 5)", "(x 5)", "(2 7)", "(#(1 2))", "(#(1 2 3))",
-        "((1 (2 3)) 4)", "((1 2 3) 9)", "(1 . 2)", "((1 2 . 3))", '("lit" 5)', "((1 2) (3 4 . 5))"]
-QUICK_USES = ["(1 2 lit)", "(1 2 lit 4)", "(1 lit)", "((1 2) lit)", "(#(1))", "(#())", "((1))", "()", "(1)", "(1 2)", "(1 2 3)", "((1 2) (3 4))", "(lit 5)", "(2 7)", "(#(1 2))", "((1 2 . 3))", '("lit" 5)']
+        "((1 (2 3)) 4)", "((1 2 3) 9)", "(1 . 2)", "((1 2 . 3))", '("lit" 5)', "((1 2) (3 4 . 5))", "((1 2) (3 4) (5 6))", "((1 2) (3 4) (5 6) (7 8))", "(#(1 2) #(3 4) #(5 6))"]
+QUICK_USES = ["(1 2 lit)", "(1 2 lit 4)", "(1 lit)", "((1 2) lit)", "(#(1))", "(#())", "((1))", "()", "(1)", "(1 2)", "(1 2 3)", "((1 2) (3 4))", "(lit 5)", "(2 7)", "(#(1 2))", "((1 2 . 3))", '("lit" 5)', "((1 2) (3 4) (5 6))", "((1 2) (3 4) (5 6) (7 8))"]
 
 
 def table(fb, thorough=False):
